@@ -59,6 +59,53 @@ pub fn seed() -> u64 {
 
 /// Iterate over the JSON records in a TLC output file: lines that are a JSON
 /// string literal (as printed by `PrintT(ToJson(..))`) or plain NDJSON objects.
+/// decode one line of a TLC output / NDJSON file into a record (None: not a record line)
+pub fn decode_line(line: &str) -> Option<J> {
+	if line.starts_with("\"{") {
+		let inner: String = match serde_json::from_str(line) {
+			Ok(s) => s,
+			Err(e) => tool_error(&format!("malformed TLC record line: {e}: {}", &line[..line.len().min(200)])),
+		};
+		match serde_json::from_str(&inner) {
+			Ok(v) => Some(v),
+			Err(e) => tool_error(&format!("malformed TLC record: {e}: {}", &inner[..inner.len().min(200)])),
+		}
+	} else if line.starts_with('{') {
+		match serde_json::from_str(line) {
+			Ok(v) => Some(v),
+			Err(e) => tool_error(&format!("malformed record: {e}")),
+		}
+	} else {
+		None
+	}
+}
+
+impl Report {
+	/// merge the report of a worker thread into this one
+	pub fn merge(&mut self, other: Report) {
+		for (k, v) in other.counters {
+			*self.counters.entry(k).or_insert(0) += v;
+		}
+		for (k, v) in other.mismatch_counts {
+			*self.mismatch_counts.entry(k).or_insert(0) += v;
+		}
+		for (k, v) in other.mismatches {
+			let e = self.mismatches.entry(k).or_default();
+			for it in v {
+				if e.len() < self.keep {
+					e.push(it)
+				}
+			}
+		}
+		for s in other.samples {
+			if self.samples.len() < 6 {
+				self.samples.push(s)
+			}
+		}
+		self.distinct.extend(other.distinct);
+	}
+}
+
 pub fn for_each_record(path: &str, mut f: impl FnMut(J)) {
 	let file = std::fs::File::open(path).unwrap_or_else(|e| tool_error(&format!("open {path}: {e}")));
 	let reader = BufReader::with_capacity(1 << 20, file);
